@@ -13,11 +13,16 @@
    - with no changes nothing is put at all and the marked tree is returned with every formatting identity intact;
    - a child sub-tree that is untouched and still in place under an in-tree parent is returned intact (all identities,
      hence all original text) whatever was done to its siblings.
+   - (models/SliceReplay.v: the loop of Reconcile.recurse_slice over an edited list - maximal runs of elements that are
+     consecutive in their source list go in by ONE slice operation, elements already in place and pure nodes are handled
+     alone, the tail is deleted; tied to reconcile.py by correspondence of the put_slice calls it makes) whatever the
+     output list held and wherever the edited elements come from the loop leaves exactly the edited list; an unchanged
+     list is only recursed into - no slice operation touches it.
    NOT PROVED: the put operations themselves (C01/C03/C09 - the model assumes a put makes the position equal to what was
-   put), the slice-copy optimisation of recurse_slice / recurse_slice_dict (formatting provenance only), comments.
+   put), recurse_slice_dict and elements from other trees in recurse_slice (verified first, with fall back), comments.
    Decided on the implementation by py/props/C13.py (partial). *)
 From Coq Require Import List Bool Arith.
-From PF Require Import models.Reconcile proofs.ReconcileProofs.
+From PF Require Import models.Reconcile proofs.ReconcileProofs models.SliceReplay proofs.SliceReplayProofs.
 Import ListNotations.
 
 Theorem C13_reconciled_equals_edited : forall M w, shape (fst (reconcile M w)) = shape w.
@@ -33,6 +38,16 @@ Theorem C13_untouched_child_kept : forall M ws os i t,
   nth_error (fst (go_rec M true ws os)) i = Some t.
 Proof. intros M ws os i t. apply untouched_child_kept. reflexivity. Qed.
 Print Assumptions C13_untouched_child_kept.
+
+Theorem C13_slice_replay_rebuilds_the_edited_list : forall body out, fst (recurse_slice body out) = map eid body.
+Proof. exact recurse_slice_rebuilds_the_edited_list. Qed.
+Print Assumptions C13_slice_replay_rebuilds_the_edited_list.
+
+Theorem C13_unchanged_list_is_only_recursed_into : forall body,
+  (forall i x, nth_error body i = Some x -> own x = true /\ exists p, src x = Some (p, i)) ->
+  recurse_slice body (map eid body) = (map eid body, map Recurse (seq 0 (length body))).
+Proof. exact unchanged_list_is_only_recursed. Qed.
+Print Assumptions C13_unchanged_list_is_only_recursed_into.
 
 (* non-vacuity: mark  f(a, b) ; edit: replace b by a new node, rename f's label: 2 puts, a kept with its identity *)
 Example C13_example :
